@@ -927,6 +927,7 @@ open DDP.LadderParse
 
 def tokOf (s : String) : Option Tok :=
   if s == "(" then some .lp else if s == ")" then some .rp
+  else if s == "f" then some .falls else if s == "s" then some .sonst
   else match s.toList with
     | 'a' :: r => (String.ofList r).toNat?.map .atom
     | 'o' :: r => (String.ofList r).toNat?.map .bop
@@ -937,6 +938,7 @@ def render : E → String
   | .atom a => s!"(atom {a})"
   | .un u e => s!"(un {u} {render e})"
   | .bin o l r => s!"(bin {o} {render l} {render r})"
+  | .ite a c b => s!"(ite {render a} {render c} {render b})"
 
 end LadderP
 
@@ -947,6 +949,44 @@ def cmdLadder (args : List String) : String :=
     match DDP.LadderParse.parseAll DDP.Ladder.ddpTbl ts with
     | some e => LadderP.render e
     | none => "none"
+
+/-! ### the constant-parameter annotator: module in, flags out -/
+namespace ConstP
+open DDP.ConstParam
+
+def argOf (s : String) : Option Arg :=
+  if s == "n" then some .none else if s == "u" then some .unknown
+  else match s.toList with
+    | 'r' :: r => (String.ofList r).toNat?.map .root
+    | _ => none
+
+def stmtOf (s : String) : Option Stmt :=
+  match s.splitOn "/" with
+  | ["a", t] => (argOf t).map .assign
+  | "c" :: g :: args => do
+      let gn ← g.toNat?
+      let as ← args.mapM argOf
+      pure (.call gn as)
+  | _ => none
+
+/-- `nparams:refbits:extern:stmt,stmt,…` -/
+def fnOf (s : String) : Option Fn :=
+  match s.splitOn ":" with
+  | [n, refs, ext, body] => do
+      let np ← n.toNat?
+      let stmts ← (if body == "" then some [] else (body.splitOn ",").mapM stmtOf)
+      pure { nparams := np, isRef := refs.toList.map (· == '1'), extern := ext == "1", body := stmts }
+  | _ => none
+
+end ConstP
+
+def cmdConstParam (args : List String) : String :=
+  match args with
+  | [m] =>
+    match (m.splitOn ";").mapM ConstP.fnOf with
+    | some p => ";".intercalate ((DDP.ConstParam.analyse p).map fun fl => "".intercalate (fl.map fun b => if b then "1" else "0"))
+    | none => "bad-request"
+  | _ => "bad-request"
 
 def dispatch (line : String) : String :=
   match (line.splitOn " ").filter (· ≠ "") with
@@ -983,6 +1023,7 @@ def dispatch (line : String) : String :=
   | "abi" :: args => cmdAbi args
   | "own" :: args => cmdOwn args
   | "ladder" :: args => cmdLadder args
+  | "constparam" :: args => cmdConstParam args
   | _ => "bad-request"
 
 
